@@ -22,7 +22,7 @@ TAG_PROPERTY = {
     "mon.idle.pe": "C13", "mon.idle.px": "C13", "mon.idle.pc": "C13", "mon.idle.px.D10": "C13", "mon.idle.pc.D10": "C13", "mon.scheduled": "C13", "mon.resume": "C13", "sub": "C13",
     "isR": "C13", "isS": "C13", "ev.guard.queries": "C13", "pe": "C13", "px": "C13", "pc": "C13", "ev.config": "C13",
     "prev.payload": "C14", "ev.guard.payload": "C14", "ev.life.payload": "C14",
-    "mon.payload.guard": "C14", "mon.payload.life": "C14", "mon.payload.prev": "C14",
+    "mon.payload.guard": "C14", "mon.payload.life": "C14", "mon.payload.prev": "C14", "mon.payload.last": "C14",
     "mon.report": "C16", "strA": "C16", "hist": "C16", "lg": "C16",
     "log.methods": "C16", "log.requests": "C16", "log.statuses": "C16", "log.resolutions": "C16", "log.order": "C16",
     "draws": "C12", "log.utilities": "C12", "mon.random.count": "C12", "mon.random.rank": "C12", "mon.random.zero": "C12", "mon.random.ids": "C12",
